@@ -79,6 +79,28 @@ def _genuine_loop(args):
     return n
 
 
+def _hangup_loop(args):
+    """a client that sends a large decode request and hangs up without reading the reply (the daemon's send fails and it cleans
+    up that connection while other requests are in flight)"""
+    import socket as _s
+    sock, cred, t_end = args
+    n = 0
+    big = rig.hdr(rig.T_DEC_REQ, 0, 4 + len(cred)) + rig.dec_req_body(cred)
+    pad = rig.hdr(rig.T_DEC_REQ, 0, 4 + 300000) + rig.dec_req_body(b"MUNGE:" + b"A" * 299990 + b":\0"[:4])
+    while time.time() < t_end:
+        for raw in (big, pad):
+            try:
+                c = _s.socket(_s.AF_UNIX, _s.SOCK_STREAM)
+                c.settimeout(2)
+                c.connect(sock)
+                c.sendall(raw)
+                c.close()
+            except OSError:
+                pass
+            n += 1
+    return n
+
+
 def _forger_loop(args):
     sock, forged, t_end = args
     n = 0
@@ -88,8 +110,8 @@ def _forger_loop(args):
             d, st = rig.decode(sock, f)
             n += 1
             if d is not None and (d["error_num"] in (0, 15, 16, 17) or d["data_len"] != 0):
-                acc.append({"why": "altered credential (%s; MAC field of a genuine credential kept) was ACCEPTED while the genuine "
-                                   "one was being decoded concurrently: error %d, %d payload bytes, uid %d"
+                acc.append({"why": "forged credential (%s) was ACCEPTED while genuine ones were being decoded concurrently and another client "
+                                   "kept hanging up on its replies: error %d, %d payload bytes, uid %d"
                                    % (name, d["error_num"], d["data_len"], d["cred_uid"]),
                             "cred_hex": f.hex(), "attempt": n})
                 break
@@ -117,20 +139,30 @@ def forgery_race(ctx, exe, seconds=6.0, nthreads=2, label="forge"):
             for off in (1, 2, 9, 17):
                 b = bytearray(body)
                 b[-off] ^= 0x41
-                forged.append(("c%dm%dz%d byte -%d" % (c, m, z, off), pyref.armor(bytes(b))))
+                forged.append(("altered copy of a genuine credential, MAC field kept: c%dm%dz%d byte -%d" % (c, m, z, off), pyref.armor(bytes(b))))
         if not forged:
             return [{"why": "no credential could be minted"}], "", 0
+        # credentials nobody holding the key produced: MAC'd under subkeys anybody can guess (all zero bytes: what a keyed context
+        # left unkeyed, or keyed from a buffer another thread has just wiped, would verify)
+        now = int(time.time())
+        for mk, nm in ((b"", "empty"), (bytes(20), "20 zero bytes"), (bytes(64), "64 zero bytes")):
+            for m in (5, 3):
+                forged.append(("minted under the MAC subkey %s, mac %d, uid 0" % (nm, m),
+                               pyref.mint(b"", mac=m, mac_key=mk, time0=now, ttl=600, uid=0, gid=0, data=b"forged under a guessable key")))
         t_end = time.time() + seconds
-        pool = multiprocessing.Pool(4)
+        pool = multiprocessing.Pool(7)
         try:
             g = [pool.apply_async(_genuine_loop, ((d.sock, genuine[i % len(genuine)], t_end),)) for i in range(2)]
-            f = [pool.apply_async(_forger_loop, ((d.sock, forged[i::2], t_end),)) for i in range(2)]
+            f = [pool.apply_async(_forger_loop, ((d.sock, forged[i::4], t_end),)) for i in range(4)]
+            eb, _st = rig.encode(d.sock, uid=4242, gid=4243, cipher=4, mac=5, zip_=0, ttl=300, data=bytes(range(256)) * 800)
+            h = pool.apply_async(_hangup_loop, ((d.sock, eb["data"] if eb and eb["error_num"] == 0 else genuine[0], t_end),))
             for x in f:
                 n, acc = x.get(timeout=seconds + 60)
                 total += n
                 problems += acc
             for x in g:
                 total += x.get(timeout=seconds + 60)
+            total += h.get(timeout=seconds + 60)
         finally:
             pool.terminate()
             pool.join()
